@@ -16,8 +16,12 @@ VerOrUnset == {0} \cup Versions
 AuthModes == {"none", "request", "requireAny", "verifyIfGiven", "requireAndVerify"}
 CertKinds == {"none", "self", "ca", "other"}   \* nothing / self-signed / signed by the configured CA / signed by another CA
 
-\* cfg = [min, max, auth, ca]   (ca: a CAFile is configured)
-Cfgs == [min : VerOrUnset, max : VerOrUnset, auth : AuthModes, ca : BOOLEAN]
+\* cfg = [min, max, auth, ca, skip, suites]
+\*   ca: a CAFile is configured; skip: InsecureSkipVerify (a client-side flag of crypto/tls: it has no
+\*   meaning for a listener and must not change what the server admits); suites: CipherSuites left
+\*   empty ("default") or set to the list of DefaultTLSConfig ("listed", AEAD suites of TLS 1.2)
+CfgsOver(skips, suites) == [min : VerOrUnset, max : VerOrUnset, auth : AuthModes, ca : BOOLEAN, skip : skips, suites : suites]
+Cfgs == CfgsOver(BOOLEAN, {"default", "listed"})
 \* cl = [lo, hi, cert]
 Clients == {c \in [lo : Versions, hi : Versions, cert : CertKinds] : c.lo <= c.hi}
 
@@ -29,6 +33,7 @@ Accepts(cfg) == ~(cfg.min > cfg.max) /\ (cfg.min = 0 \/ cfg.min >= 12)
 
 \* crypto/tls (Config.supportedVersions): an unset MinVersion means TLS 1.2 for a server, an unset
 \* MaxVersion means TLS 1.3
+\* (the listed suites are TLS 1.2 AEAD suites; TLS 1.3 suites are not configurable: no version >= 1.2 is lost)
 ServerVersions(cfg) == {v \in Versions : (IF cfg.min = 0 THEN v >= 12 ELSE v >= cfg.min) /\ (cfg.max = 0 \/ v <= cfg.max)}
 ClientVersions(cl)  == {v \in Versions : cl.lo <= v /\ v <= cl.hi}
 
